@@ -103,7 +103,8 @@ Cred(id, rp, user, ctr, hm) == [id |-> id, rp |-> rp, user |-> user, ctr |-> ctr
 
 BaseCfg == [uvCap |-> "configured", upCap |-> TRUE, counterOn |-> TRUE, idLen |-> 16, hmac |-> "off", mc |-> FALSE,
             storeKind |-> "reference", disc |-> "full", emptyAsErr |-> FALSE,
-            wrap |-> "none", tr |-> "default"]     \* which shipped lock wrapper stands in front of the reference store (transparent in the model)
+            wrap |-> "none", tr |-> "default",
+            order |-> "oldest"]  \* the reference store lists a relying party's credentials oldest first / newest first     \* which shipped lock wrapper stands in front of the reference store (transparent in the model)
 
 NoPrfReq == [given |-> FALSE, eval |-> "absent", byCred |-> <<>>, byCredGiven |-> FALSE]
 BaseReq == [rp |-> "r1", user |-> "u1", algs |-> <<"ES256">>, exclude |-> <<>>, excludeGiven |-> FALSE,
@@ -154,6 +155,8 @@ C07_Stores == { << <<Cred("c1", "r1", "u1", Ctr(0, 7), "both"), Cred("c2", "r1",
 PrfOne == [given |-> TRUE, eval |-> "one", byCred |-> <<>>, byCredGiven |-> FALSE]
 C07_McReqs == { [BaseReq EXCEPT !.exclude = x, !.excludeGiven = (x # <<>>), !.rk = rk, !.prf = p, !.user = "u3"] :
                   x \in {<<>>, <<"c1">>, <<"x1">>}, rk \in BOOLEAN, p \in {NoPrfReq, PrfOne} }
+              \* a registration for an account that already has a (discoverable) credential at the RP
+              \cup { [BaseReq EXCEPT !.rk = rk, !.user = "u1"] : rk \in BOOLEAN }
 C07_GaReqs == { [BaseReq EXCEPT !.allow = a, !.allowGiven = (a # <<>>), !.prf = p] :
                   a \in {<<>>, <<"c1">>, <<"c2">>}, p \in {NoPrfReq, PrfOne} }
 C07_Cers ==
@@ -231,7 +234,9 @@ Algs == {"ES256", "RS256", "EdDSA", "unknown", "u:RS256"}
 AlgLists == UNION { [1..n -> Algs] : n \in 0..3 }
 C02_Cfgs == { [BaseCfg EXCEPT !.idLen = n, !.counterOn = c] : n \in {0, 15, 16, 40, 64, 65, 255}, c \in BOOLEAN }
 C02_Stores == { << <<>> >>, << <<Cred("c1", "r1", "u1", NoCtr, "none")>> >> }
-C02_Cers == { << Cer("ctap2", "mc", [BaseReq EXCEPT !.algs = a, !.rk = TRUE], BaseEnv) >> : a \in AlgLists }
+\* identifiers that are not signature algorithms at all (non-negative COSE values) are unsupported entries like any other
+OddAlgLists == { <<"HMAC", "ES256">>, <<"ES256", "A128GCM">>, <<"zero", "ES256">>, <<"HMAC">>, <<"zero", "A128GCM", "RS256">> }
+C02_Cers == { << Cer("ctap2", "mc", [BaseReq EXCEPT !.algs = a, !.rk = TRUE], BaseEnv) >> : a \in AlgLists \cup OddAlgLists }
 C02_HistCers ==
     { << Cer("ctap2", "mc", [BaseReq EXCEPT !.algs = a, !.rp = r1], BaseEnv),
          Cer("ctap2", "mc", [BaseReq EXCEPT !.algs = b, !.rp = r2, !.user = "u2", !.rk = TRUE], BaseEnv),
@@ -281,7 +286,10 @@ DomAndEvil == [origin |-> "o.and.evil", rpid |-> "r1", rp |-> "r1", dom |-> "Ori
 \* an internationalised host (in punycode and as typed); r3 is its punycode name
 DomIdn     == [origin |-> "o.idn", rpid |-> "absent", rp |-> "r3", dom |-> "ok"]
 DomIdnU    == [origin |-> "o.idnu", rpid |-> "r3", rp |-> "r3", dom |-> "ok"]
-DomsOk  == {DomOk1, DomOk1p, DomHost, DomOk2, DomAnd1, DomAnd1w, DomIdn, DomIdnU}
+\* relying parties the client treats specially (quirks.rs): nothing the properties speak of may differ for them
+DomQ1      == [origin |-> "o.q1", rpid |-> "absent", rp |-> "rq1", dom |-> "ok"]
+DomQ2      == [origin |-> "o.q2", rpid |-> "rq2", rp |-> "rq2", dom |-> "ok"]
+DomsOk  == {DomOk1, DomOk1p, DomHost, DomOk2, DomAnd1, DomAnd1w, DomIdn, DomIdnU, DomQ1, DomQ2}
 DomsBad == {DomEvil, DomHttp, DomSufx, DomOther, DomLocal, DomIp, DomAndEvil}
 
 BaseCReq ==
@@ -306,6 +314,10 @@ C11c_Cers ==
         rk \in {"absent", "discouraged", "preferred", "required"}, rr \in BOOLEAN, cp \in {"absent", "false", "true"},
         u \in {"preferred", "discouraged"} }
     \cup
+    { << Cer("client", "mc", [WithDom(BaseCReq, d) EXCEPT !.residentKey = rk, !.credProps = cp], BaseEnv),
+         Cer("client", "ga", WithDom(BaseCReq, d), BaseEnv) >> :
+        d \in {DomQ1, DomQ2}, rk \in {"discouraged", "required"}, cp \in {"absent", "false", "true"} }
+    \cup
     \* the whole authenticatorSelection member absent: no resident key is asked for
     { << Cer("client", "mc", [BaseCReq EXCEPT !.authSel = FALSE, !.credProps = cp], BaseEnv),
          Cer("client", "ga", BaseCReq, BaseEnv) >> : cp \in {"absent", "true"} }
@@ -323,10 +335,14 @@ C11c_Cers ==
 \* C02 through the client
 C02c_Cfgs == { [BaseCfg EXCEPT !.idLen = n, !.counterOn = c] : n \in {16, 64}, c \in BOOLEAN }
 C02c_AlgLists == { <<>>, <<"ES256">>, <<"RS256", "ES256">>, <<"EdDSA", "unknown">>, <<"RS256">>, <<"unknown", "ES256", "EdDSA">>,
-                   <<"u:RS256">>, <<"u:EdDSA", "u:RS256">>, <<"u:RS256", "ES256">> }
+                   <<"u:RS256">>, <<"u:EdDSA", "u:RS256">>, <<"u:RS256", "ES256">>, <<"HMAC", "ES256">>, <<"zero">> }
 C02c_Cers ==
     { << Cer("client", "mc", [WithDom(BaseCReq, d) EXCEPT !.algs = a, !.chal = ch, !.cdmode = m], BaseEnv) >> :
         d \in DomsOk \cup DomsBad, a \in C02c_AlgLists, ch \in {"c0", "c1", "c32", "c1024"}, m \in {"default", "extra", "hash"} }
+    \cup
+    \* extra client-data members that serialise to an object without members
+    { << Cer("client", "mc", [WithDom(BaseCReq, d) EXCEPT !.cdmode = "extra0"], BaseEnv),
+         Cer("client", "ga", [WithDom(BaseCReq, d) EXCEPT !.cdmode = "extra0"], BaseEnv) >> : d \in {DomOk1, DomAnd1} }
     \cup
     { << Cer("client", "mc", [WithDom(BaseCReq, DomOk1) EXCEPT !.user = "u1", !.residentKey = "required"], BaseEnv),
          Cer("client", "mc", [WithDom(BaseCReq, d) EXCEPT !.user = "u2", !.exclude = x, !.excludeGiven = TRUE], BaseEnv),
@@ -446,11 +462,16 @@ C18i_Cers == { << Cer("ctap2", "info", BaseReq, [BaseEnv EXCEPT !.cancelAt = k])
 -----------------------------------------------------------------------------
 (* C17: U2F histories over two applications and key handles of several lengths *)
 U2fReq(app, handle, ctr, presence) ==
-    BaseReq @@ [handle |-> handle, counter |-> ctr, presence |-> presence] 
+    BaseReq @@ [handle |-> handle, counter |-> ctr, presence |-> presence, ctl |-> "enforce"] 
 U2fR(app, handle, ctr, presence) == [U2fReq(app, handle, ctr, presence) EXCEPT !.rp = app]
 Handles == {"k0", "k1", "k32", "k255"}
 U2fReg(a, h) == Cer("u2f", "reg", U2fR(a, h, Ctr(0, 0), <<>>), BaseEnv)
 U2fAuth(a, h, c, p) == Cer("u2f", "auth", U2fR(a, h, c, p), BaseEnv)
+U2fAuthCtl(a, h, c, p, ctl) == Cer("u2f", "auth", [U2fR(a, h, c, p) EXCEPT !.ctl = ctl], BaseEnv)
+\* every control byte with every presence value
+C17_CtlCers ==
+    { << U2fReg("a1", "k32"), U2fAuthCtl("a1", "k32", Ctr(0, 7), p, ctl), U2fAuthCtl("a1", "k1", Ctr(0, 7), p, ctl) >> :
+        ctl \in {"enforce", "check", "dont"}, p \in {<<>>, <<"UP">>, <<"UV">>, <<"UP", "UV">>} }
 C17_Cfgs == { BaseCfg, [BaseCfg EXCEPT !.storeKind = "slot", !.disc = "forced"] }
 C17_Stores == { << <<>> >> }
 C17_Cers ==
@@ -459,6 +480,7 @@ C17_Cers ==
         c \in {Ctr(0, 0), Ctr(0, 1), Ctr(65535, 65535)},
         \* the caller chooses the presence byte: any flag bits, not only UP / UV
         p \in {<<>>, <<"UP">>, <<"UP", "UV">>, <<"UP", "BE", "BS">>, <<"UV", "AT", "ED">>} }
+    \cup C17_CtlCers
 
 -----------------------------------------------------------------------------
 (* C13: every status byte as a store fault under the client                 *)
@@ -484,5 +506,16 @@ C14e_Cers ==
          Cer("client", "ga", [WithCprf(BaseCReq, c) EXCEPT !.allow = a, !.allowGiven = a # <<>>], BaseEnv) >> :
         rk \in {"discouraged", "required"}, cp \in {"absent", "true"}, a \in {<<>>, <<"n1">>},
         c \in {NoCprf, Cprf("prf", "two", <<>>, FALSE, FALSE)} }
+
+\* a store that fails with the status byte 0x00 ("success" used as an error value): fault value 256.  Layer B does not
+\* model that byte as an error (its pending-error fields use 0 for "none"), so these runs drift; layer A judges them.
+C07z_Cers ==
+    { << Cer("ctap2", "mc", [BaseReq EXCEPT !.user = "u3"], [BaseEnv EXCEPT !.faults = <<256, 0, 0>>]) >>,
+      << Cer("ctap2", "ga", [BaseReq EXCEPT !.allow = <<"c1">>, !.allowGiven = TRUE], [BaseEnv EXCEPT !.faults = <<0, 256, 0>>]) >>,
+      << Cer("ctap2", "ga", [BaseReq EXCEPT !.allow = <<"c1">>, !.allowGiven = TRUE], [BaseEnv EXCEPT !.faults = <<256, 0, 0>>]) >>,
+      << Cer("client", "mc", [BaseCReq EXCEPT !.user = "u3"], [BaseEnv EXCEPT !.faults = <<256, 0, 0>>]) >>,
+      << Cer("client", "ga", [BaseCReq EXCEPT !.allow = <<"c1">>, !.allowGiven = TRUE], [BaseEnv EXCEPT !.faults = <<0, 256, 0>>]) >>,
+      << Cer("u2f", "reg", [U2fR("a1", "k32", Ctr(0, 0), <<>>) EXCEPT !.rp = "a1"], [BaseEnv EXCEPT !.faults = <<256, 0, 0>>]) >>,
+      << U2fReg("a1", "k32"), Cer("u2f", "auth", U2fR("a1", "k32", Ctr(0, 3), <<"UP">>), [BaseEnv EXCEPT !.faults = <<256, 0, 0>>]) >> }
 
 =============================================================================
